@@ -8,11 +8,14 @@
    documents a load opens, and whether each wsdl:import of the root WSDL targets a WSDL or a
    schema, are inputs (w_docs, w_imps).
 
-   Two behaviours of the unchanged code that contradict the property are kept as switches
-   (quirks) so that theorems exist for the code as it is and as it should be:
-     q_none : the re-attachment loop dereferences imp.imported, which is None for a
+   Two defects found with this check and since repaired in suds (commits 7f23215, 247d4f1) are
+   kept as switches, both false for the code as it is now; the harness probes the implementation
+   and reports a switch that flips back as a violation under the defect's own key, it never
+   silently follows it.  The claims are options_reattached / wrapped_follows_options (switches
+   false); the _partial/_refuted theorems document why the repaired loop matters.
+     q_none : the re-attachment loop dereferenced imp.imported, which is None for a
               wsdl:import whose target is a schema  -> AttributeError
-     q_stale: body.wrapped, computed from options.unwrap when the WSDL object was built, is not
+     q_stale: body.wrapped, computed from options.unwrap when the WSDL object was built, was not
               recomputed for a cached object *)
 From SV Require Import Lib.Base C11.Model.
 
